@@ -60,6 +60,7 @@ SYMBOLS: Dict[str, dict] = {
     "badw": dict(node=_n("VBadWrite"), kind="op", proc="VBadWrite", params=[], cfg={}, reads=[]),
     "fail": dict(node=_n("VFail"), kind="op", proc="VFail", params=[], cfg={}, reads=[]),
     "failif": dict(node=_n("VFailIf"), kind="op", proc="VFailIf", params=[("a", 0.0)], cfg={}, reads=["a"]),
+    "interrupt": dict(node=_n("VInterrupt"), kind="op", proc="VInterrupt", params=[], cfg={}, reads=[]),
     "sum": dict(node=_n("VSum"), kind="op", proc="VSum", **{"in": "C"}, params=[], cfg={}, reads=[]),
     # probes
     "probe_factor": dict(node=_n("VProbe", context_key="factor"), kind="probe", proc="VProbe", ckey="factor", params=[], cfg={}, reads=["factor"]),
@@ -92,12 +93,12 @@ SYMBOLS: Dict[str, dict] = {
     "unknown": dict(node=_n("VNoSuchProcessor"), kind="invalid", error="UnknownProcessorError", params=[], cfg={}, reads=[]),
 }
 
-ALL = list(SYMBOLS)
+ALL = [s for s in SYMBOLS if s != "interrupt"]  # KeyboardInterrupt-class aborts are exercised by C06 only
 # one representative per kind
 PRIME = ["src", "srcdef", "paysrc", "mul", "muldef", "two", "ctxw", "fail", "sum", "probe_factor", "gainprobe",
          "ren_r_factor", "del_factor", "tmpl_a", "slice_mul", "sweep_op", "sink_ctx", "bogus"]
 # symbols whose failures are deliberate processor errors (removed for C02)
-DELIBERATE = {"fail", "failif", "badw"}
+DELIBERATE = {"fail", "failif", "badw", "interrupt"}
 
 DATA_KINDS = ["none", "float", "coll"]
 
